@@ -156,6 +156,11 @@ func (c *compiler) write(bb *strings.Builder, i interface{}) {
 		for _, ii := range t {
 			c.write(bb, ii)
 		}
+	case []template.HTML:
+		// trusted elements are printed like those of a []string are
+		for _, ii := range t {
+			c.write(bb, ii)
+		}
 	case []interface{}:
 		for _, ii := range t {
 			c.write(bb, ii)
